@@ -1,4 +1,6 @@
-//! C16 — resources return to baseline and admission limits are never exceeded (H1 tier).
+//! C16 — resources return to baseline and admission limits are never exceeded.
+//! Families: H1 session-outcome mixes and connection storms (this file), per-(cluster, IP) slots under
+//! runtime limit changes with H1, HTTP/2-over-TLS and TCP-listener connections (`c16_ip.rs`).
 use std::collections::BTreeMap;
 
 use serde::{Deserialize, Serialize};
@@ -16,6 +18,9 @@ use crate::netsim::{self, Knobs};
 use crate::prng::Prng;
 use crate::scenario::*;
 use crate::world::{MS, SEC};
+
+#[path = "c16_ip.rs"]
+pub mod c16_ip;
 
 pub struct C16;
 
@@ -119,8 +124,10 @@ pub fn generate(seed: u64, tier: Tier) -> Plan {
     Plan { http, settle_s: wait + 5, storm }
 }
 
-fn gauges_of(o: &HttpOutcome, id: &str) -> Option<BTreeMap<String, u64>> {
-    let r = o.responses.iter().map(|(_, r)| r).find(|r| r.id == id && r.status == ResponseStatus::Ok as i32)?;
+fn gauges_of(o: &HttpOutcome, id: &str) -> Option<BTreeMap<String, u64>> { gauges_in(&o.responses, id) }
+
+pub fn gauges_in(responses: &[(u64, sozu_command_lib::proto::command::WorkerResponse)], id: &str) -> Option<BTreeMap<String, u64>> {
+    let r = responses.iter().map(|(_, r)| r).find(|r| r.id == id && r.status == ResponseStatus::Ok as i32)?;
     let content = r.content.as_ref()?.content_type.as_ref()?;
     let ContentType::WorkerMetrics(wm) = content else { return None };
     let mut m = BTreeMap::new();
@@ -160,23 +167,38 @@ pub fn run(p: &Plan, log: bool) -> HttpOutcome {
     run_http_script(&p.http, log, Some(script))
 }
 
-pub fn oracle(p: &Plan, o: &HttpOutcome) -> Vec<Violation> {
+/// What the footprint oracle looks at, whatever the family.
+pub struct FootprintObs<'a> {
+    pub panicked: &'a Option<String>,
+    pub aborted: &'a Option<String>,
+    pub max_served: usize,
+    pub max_connections: usize,
+    pub board: &'a BTreeMap<String, i64>,
+    pub responses: &'a [(u64, sozu_command_lib::proto::command::WorkerResponse)],
+    pub settle_s: u64,
+    /// the well-behaved client that starts after quiescence, its request id and the body length it must get
+    pub probe: &'a ClientOutcome,
+    pub probe_id: u64,
+    pub probe_len: u64,
+}
+
+pub fn footprint(f: &FootprintObs) -> Vec<Violation> {
     let mut v = Vec::new();
-    if let Some(pn) = &o.panicked { v.push(Violation::new("panic", "worker", pn.clone())); }
-    if let Some(a) = &o.aborted { v.push(Violation::new("no_exit", a.clone(), format!("run aborted: {a}"))); }
-    let maxc = p.http.knobs.max_connections;
-    if o.max_served > maxc {
-        v.push(Violation::new("over_max_connections", "served", format!("{} client connections were being served at once, max_connections = {maxc}", o.max_served)));
+    if let Some(pn) = f.panicked { v.push(Violation::new("panic", "worker", pn.clone())); }
+    if let Some(a) = f.aborted { v.push(Violation::new("no_exit", a.clone(), format!("run aborted: {a}"))); }
+    let maxc = f.max_connections;
+    if f.max_served > maxc {
+        v.push(Violation::new("over_max_connections", "served", format!("{} client connections were being served at once, max_connections = {maxc}", f.max_served)));
     }
-    if o.board.get("quiesced").copied().unwrap_or(0) == 1 {
-        let la = o.board.get("leak_accepted").copied().unwrap_or(0);
-        let lc = o.board.get("leak_connected").copied().unwrap_or(0);
-        if la > 0 { v.push(Violation::new("fd_leak", "client_socket", format!("{la} accepted client socket(s) still open {} s after the last client finished", p.settle_s))); }
-        if lc > 0 { v.push(Violation::new("fd_leak", "backend_socket", format!("{lc} backend socket(s) still open {} s after the last client finished", p.settle_s))); }
+    if f.board.get("quiesced").copied().unwrap_or(0) == 1 {
+        let la = f.board.get("leak_accepted").copied().unwrap_or(0);
+        let lc = f.board.get("leak_connected").copied().unwrap_or(0);
+        if la > 0 { v.push(Violation::new("fd_leak", "client_socket", format!("{la} accepted client socket(s) still open {} s after the last client finished", f.settle_s))); }
+        if lc > 0 { v.push(Violation::new("fd_leak", "backend_socket", format!("{lc} backend socket(s) still open {} s after the last client finished", f.settle_s))); }
     } else {
         v.push(Violation::new("no_exit", "never_quiesced", "clients never all finished".to_string()));
     }
-    match (gauges_of(o, "Q0"), gauges_of(o, "Q1")) {
+    match (gauges_in(f.responses, "Q0"), gauges_in(f.responses, "Q1")) {
         (Some(base), Some(end)) => {
             for (k, e) in &end {
                 let name = k.rsplit('/').next().unwrap_or(k);
@@ -191,20 +213,101 @@ pub fn oracle(p: &Plan, o: &HttpOutcome) -> Vec<Violation> {
         _ => v.push(Violation::new("no_metrics", "query_failed", "QueryMetrics did not return worker metrics".to_string())),
     }
     // accepting resumes: the probe is served
-    let probe = o.clients.last().unwrap();
-    let pid = p.http.clients.last().unwrap().requests[0].id;
-    match probe.responses.first() {
-        Some(m) if m.sim_id == Some(pid) && m.complete && m.body_ok() && m.body_len == 1234 => {}
-        other => v.push(Violation::new("accept_not_resumed", "probe", format!("probe after quiescence was not served: {:?} rec={:?}", other.map(|m| m.start.clone()), probe.rec))),
+    match f.probe.responses.first() {
+        Some(m) if m.sim_id == Some(f.probe_id) && m.complete && m.body_ok() && m.body_len == f.probe_len => {}
+        other => v.push(Violation::new("accept_not_resumed", "probe", format!("probe after quiescence was not served: {:?} rec={:?}", other.map(|m| m.start.clone()), f.probe.rec))),
     }
     v
+}
+
+pub fn oracle(p: &Plan, o: &HttpOutcome) -> Vec<Violation> {
+    footprint(&FootprintObs {
+        panicked: &o.panicked, aborted: &o.aborted, max_served: o.max_served, max_connections: p.http.knobs.max_connections, board: &o.board, responses: &o.responses, settle_s: p.settle_s,
+        probe: o.clients.last().unwrap(), probe_id: p.http.clients.last().unwrap().requests[0].id, probe_len: 1234,
+    })
+}
+
+// ------------------------------------------------------------------------------- per-IP family
+
+fn run_ip_plan(plan: &Value) -> RunReport {
+    let p: c16_ip::IpPlan = match serde_json::from_value(plan.clone()) { Ok(p) => p, Err(e) => return RunReport { harness_error: Some(format!("bad plan: {e}")), ..Default::default() } };
+    // Process-wide one-time initialisations (the TLS stack's first use of the entropy source, among others)
+    // happen inside whichever simulation comes first and shift its seeded entropy stream: the first run of a
+    // process could differ from a repetition of the same plan. One discarded run of a fixed plan that uses every
+    // protocol of the family puts every process in the same state before the first run that counts.
+    static WARM: std::sync::atomic::AtomicBool = std::sync::atomic::AtomicBool::new(false);
+    if !WARM.swap(true, std::sync::atomic::Ordering::SeqCst) { let _ = c16_ip::run(&c16_ip::warmup_plan(), false); }
+    let o = c16_ip::run(&p, false);
+    let fresh = o.probes.iter().find(|x| x.0.is_none()).expect("fresh-IP probe");
+    let fresh_id = 9_000_000 + (o.probes.len() as u64 - 1);
+    let mut violations = footprint(&FootprintObs {
+        panicked: &o.panicked, aborted: &o.aborted, max_served: o.max_served, max_connections: p.knobs.max_connections, board: &o.board, responses: &o.responses, settle_s: p.settle_s,
+        probe: &fresh.2, probe_id: fresh_id, probe_len: 3,
+    });
+    // footprint findings of a run with a WebSocket tunnel are keyed apart (the tunnel has its own teardown path)
+    let ws_upgraded = o.h1.values().filter(|c| c.responses.iter().chain(c.partial.iter()).any(|m| m.status() == 101)).count() as u64;
+    let plan_has_ws = p.conns.iter().any(|c| matches!(c, c16_ip::Conn::H1(c) if c.requests.iter().any(|r| r.headers.iter().any(|(n, _)| n == "Upgrade"))));
+    if plan_has_ws { for x in violations.iter_mut() { if matches!(x.class.as_str(), "gauge_not_baseline" | "gauge_underflow" | "fd_leak") { x.key = format!("{}|websocket_upgrade", x.key); } } }
+    // a worker panic ends the run: what follows from it (no metrics, no probe) is not reported on top of it
+    if let Some(msg) = &o.panicked {
+        // digits collapse to N so that the key names the failure, not the offsets
+        let mut norm = String::new();
+        let mut in_number = false;
+        for c in msg.chars() {
+            if c.is_ascii_digit() { if !in_number { norm.push('N'); } in_number = true; } else { in_number = false; norm.push(if c.is_ascii_alphanumeric() { c } else { '_' }); }
+        }
+        violations = vec![Violation::new("panic", format!("worker:{}", norm.chars().take(80).collect::<String>()), msg.clone())];
+    }
+    let (jv, st) = c16_ip::judge(&p, &o);
+    if o.panicked.is_none() {
+        violations.extend(jv);
+        violations.extend(c16_ip::probe_oracle(&p, &o, c16_ip::last_trigger(&p, &o)));
+    }
+    // one report per (class, key)
+    let mut seen = std::collections::BTreeSet::new();
+    violations.retain(|x| seen.insert((x.class.clone(), x.key.clone())));
+    let mut rep = RunReport { seed: p.seed, family: p.family.clone(), violations, trace_hash: o.trace_hash, stats: o.stats.clone(), ..Default::default() };
+    // the verdict-relevant observations are part of the fingerprint
+    let mut th = crate::prng::TraceHash(rep.trace_hash, 0);
+    for x in [st.admitted, st.rejected, st.unknown, st.must_admit, st.must_reject, st.either] { th.mix(x); }
+    rep.trace_hash = th.0;
+    rep.summary = format!("{}; gate decisions: admitted={} rejected={} unknown={}", c16_ip::summarize(&p), st.admitted, st.rejected, st.unknown);
+    rep.nontrivial = st.admitted > 0;
+    let pr = &mut rep.probes;
+    pr.insert("ip_admitted".into(), st.admitted);
+    pr.insert("ip_rejected".into(), st.rejected);
+    pr.insert("ip_outcome_unknown".into(), st.unknown);
+    pr.insert("ip_model_must_admit".into(), st.must_admit);
+    pr.insert("ip_model_must_reject".into(), st.must_reject);
+    pr.insert("ip_model_either".into(), st.either);
+    pr.insert("ip_own_slot_reuse".into(), st.own_slot_reuse);
+    pr.insert("ip_cluster_absent_unspecified".into(), st.unspecified);
+    for (_, c) in &p.cmds {
+        let k = match c { c16_ip::Cmd::SetLimit(0) => "ip_cmd_set_zero", c16_ip::Cmd::SetLimit(_) => "ip_cmd_set_nonzero", c16_ip::Cmd::Remove(_) => "ip_cmd_remove_cluster", c16_ip::Cmd::Add { .. } => "ip_cmd_readd_cluster" };
+        *pr.entry(k.into()).or_insert(0) += 1;
+    }
+    for c in &p.conns { *pr.entry(format!("ip_conns_{}", c.proto())).or_insert(0) += 1; }
+    pr.insert("ip_ws_upgraded".into(), ws_upgraded);
+    pr.insert("ip_h2_handshake_failed".into(), o.h2.values().filter(|r| r.tls.as_ref().map_or(true, |t| !t.handshake_done)).count() as u64);
+    pr.insert("ip_closed_by_sozu".into(), o.h1.values().filter(|c| c.rec.eof).count() as u64 + o.h2.values().filter(|r| r.eof).count() as u64);
+    pr.insert("ip_served_reached_max_connections".into(), (o.max_served >= p.knobs.max_connections) as u64);
+    pr.insert("ip_probes_admitted".into(), o.probes.iter().filter(|x| x.2.responses.first().map_or(false, |m| m.status() != 429)).count() as u64);
+    if let Some(e) = o.boot_error { rep.harness_error = Some(format!("worker boot failed: {e}")); }
+    let failed: Vec<String> = o.responses.iter().filter(|(_, r)| r.status == ResponseStatus::Failure as i32).map(|(_, r)| format!("{}: {}", r.id, r.message)).collect();
+    if !failed.is_empty() && rep.harness_error.is_none() { rep.harness_error = Some(format!("worker refused a command of the plan: {}", failed.join("; "))); }
+    rep
 }
 
 impl Property for C16 {
     fn id(&self) -> &'static str { "C16" }
     fn runs(&self, tier: Tier) -> u64 { match tier { Tier::Quick => 3000, Tier::Thorough => 60000 } }
-    fn gen_plan(&self, seed: u64, tier: Tier) -> Value { serde_json::to_value(generate(seed, tier)).unwrap() }
+    fn gen_plan(&self, seed: u64, tier: Tier) -> Value {
+        // roughly one plan in three belongs to the per-IP family
+        if Prng::derive(seed, "c16/family").below(3) == 0 { return serde_json::to_value(c16_ip::generate(seed, tier)).unwrap(); }
+        serde_json::to_value(generate(seed, tier)).unwrap()
+    }
     fn run_plan(&self, plan: &Value) -> RunReport {
+        if plan.get("ip_family").is_some() { return run_ip_plan(plan); }
         let p: Plan = match serde_json::from_value(plan.clone()) { Ok(p) => p, Err(e) => return RunReport { harness_error: Some(format!("bad plan: {e}")), ..Default::default() } };
         let o = run(&p, false);
         let violations = oracle(&p, &o);
@@ -221,6 +324,10 @@ impl Property for C16 {
         rep
     }
     fn shrink(&self, plan: &Value) -> Vec<Value> {
+        if plan.get("ip_family").is_some() {
+            let Ok(p) = serde_json::from_value::<c16_ip::IpPlan>(plan.clone()) else { return vec![] };
+            return c16_ip::shrink(&p).into_iter().map(|q| serde_json::to_value(q).unwrap()).collect();
+        }
         let Ok(p) = serde_json::from_value::<Plan>(plan.clone()) else { return vec![] };
         let mut out = Vec::new();
         for h in c01::shrink_http(&p.http) {
@@ -231,6 +338,7 @@ impl Property for C16 {
         out
     }
     fn debug_plan(&self, plan: &Value) -> String {
+        if plan.get("ip_family").is_some() { return c16_ip::debug(&serde_json::from_value(plan.clone()).unwrap()); }
         let p: Plan = serde_json::from_value(plan.clone()).unwrap();
         let o = run(&p, true);
         let mut s = String::new();
@@ -242,11 +350,11 @@ impl Property for C16 {
     fn descr(&self) -> Descr {
         Descr {
             level: "exploration",
-            rule: "seeded mixes of H1 session outcomes (complete, client abort at a byte offset, client stall, half-close, backend close/stall/garbage/slow, refused or black-holed backends, unknown host) with max_connections 2..64 and connection storms up to 3x the limit; oracles: sockets sozu is serving at once (accepted, touched, not closed - counted by the hooks) never exceed max_connections; after all peers left and virtual time passed every timeout no accepted/connected socket remains, the gauges client.connections/slab.entries/buffer.in_use/http.active_requests/accept_queue.*/backend.connections read through QueryMetrics equal their pre-traffic baseline, and a fresh probe client is served; non-trivial = at least one response delivered; distinct = trace hashes",
-            assumptions: vec!["AF_UNIX stands in for TCP", "release semantics"],
-            real: vec!["sozu_lib::server::Server::run incl. SessionManager, accept queue, timers, zombie checker, metrics local drain, QueryMetrics"],
+            rule: "three plan families, one real worker each. (h1_mix, h1_storm) seeded mixes of H1 session outcomes (complete, client abort at a byte offset, client stall, half-close, backend close/stall/garbage/slow, refused or black-holed backends, unknown host) with max_connections 2..64 and connection storms up to 3x the limit. (per_ip, one plan in three) 2-4 client IPs with 3..12 (thorough: 20) mostly long-lived connections - keep-alive H1, HTTP/2 over real TLS with several streams, TCP-listener sessions relayed to the same backends, WebSocket upgrades, cleartext sent to the HTTPS listener (failed handshake) - towards 1-2 clusters routed by path on one host name, global max_connections_per_ip 0/1/2/3/5 from the worker configuration, cluster-level overrides and retry_after values, backends that refuse, black-hole, close or stall mid-response, client aborts/resets/half-closes/idle time-outs, max_connections 3..6 with or without evict_on_queue_full in one plan in five, and 0..5 master commands at seeded virtual times while connections are open: SetMaxConnectionsPerIp to a higher / lower / same / zero / back-to-non-zero value, RemoveCluster, AddCluster again with another override. Oracles: (footprint, all families) sockets the worker is serving at once (accepted, touched, not closed - counted by the hooks) never exceed max_connections; after all peers left and virtual time passed every timeout no accepted/connected socket remains, the gauges client.connections/slab.entries/buffer.in_use/http.active_requests/accept_queue.*/backend.connections read through QueryMetrics equal their pre-traffic baseline, and a fresh probe client is served. (per-IP slot model, written from the property and doc/rate-limit-design.md) every request is a gate decision taken between its first byte sent and the first byte of its answer (or its arrival at a backend); a connection holds one slot per cluster from its first admitted request to that cluster until the worker closes its socket (bounds on that instant are observed at the socket layer between loop iterations); the limit in force is the cluster override, else the global value, each version valid from somewhere between command sent and acknowledged; for each decision the model computes the connections of the same IP that certainly / possibly hold a slot and the limits possibly in force, hence the set of acceptable answers: admission with `certain holders >= every possible limit` is per_ip_limit_exceeded; a 429 (TCP: close without a byte, request never relayed) with `possible holders < every possible limit`, or while disabled, is per_ip_false_reject - reported as per_ip_slot_leak when only connections that are already over explain it and as per_ip_double_slot when only counting requests instead of connections explains it or when the refused connection itself already holds the slot; a 429 carries the configured Retry-After (cluster override, else global, none for 0) and its request never reaches a backend; after quiescence the global limit is set to 1 and one new connection per (IP, cluster) must be admitted (else per_ip_slot_leak). Keys of the per-IP classes: the last master command sent before the judged request (limit_raised, limit_lowered, limit_disabled, limit_reenabled, same_value, cluster_removed, cluster_readded, none). Non-trivial = at least one response delivered (per-IP: one admitted request); distinct = trace hashes (per-IP: mixed with the model's decision counts)",
+            assumptions: vec!["AF_UNIX stands in for TCP", "release semantics", "the per-IP limit is an admission limit: connections admitted before a lowering are not expected to be closed", "after SetMaxConnectionsPerIp(0) both readings are accepted for connections opened before it: they still count, or the documented clean slate", "requests decided while their cluster is removed are not judged (they still count as possible slot holders)"],
+            real: vec!["sozu_lib::server::Server::run incl. SessionManager (check_limits, per-(cluster, IP) track/untrack/clear, eviction), accept queue, timers, zombie checker, metrics local drain, QueryMetrics", "mux router gate and 429 answer with Retry-After, TCP gate (lib/src/tcp.rs)", "SetMaxConnectionsPerIp / AddCluster / RemoveCluster handling in the worker", "HTTPS listener with rustls and the HTTP/2 mux (clients speak real TLS), TCP listener, WebSocket upgrade to the pipe state"],
             stub: vec!["IP network", "clock", "entropy", "clients", "backends", "master"],
-            not_covered: vec!["per-(cluster, IP) limits and SetMaxConnectionsPerIp", "H2/TLS/TCP/WebSocket sessions", "gauge-underflow log line (only values > 2^31 are flagged)"],
+            not_covered: vec!["connection storms with HTTP/2, TLS, TCP or WebSocket sessions beyond the per-IP plans that run with max_connections 3..6 (the storm family proper stays H1-only)", "per-IP key taken from a PROXY-protocol header", "custom 429 answer templates", "how soon an idle or stuck session is reclaimed (only that nothing is left after every timeout has passed)", "HTTP/2 (h2c) backends in the per-IP family", "several workers (the limit is per worker by design)", "gauge-underflow log line (only values > 2^31 are flagged)"],
         }
     }
 }
